@@ -239,3 +239,50 @@ def one_tree(ref, a=None, p=None, q=None):
         return nt(a, p, q)
     finally:
         sys.setrecursionlimit(old)
+
+
+def propose_labels(nodes, prods, sk, strict=False):
+    """Certificate for forest_ok_labelled_full: one summary (sym, s, e, first/last leaf) per
+    packed node of a possibly cyclic forest, computed by propagation (untrusted: the extracted
+    checker decides whether the labelling is consistent)."""
+    n = len(nodes)
+    labels = [None] * n
+
+    def alt_label(a):
+        if a[0] == 0:
+            return ([0, a[1]], a[2] if strict else 0, a[3] if strict else 0, (a[2], a[3]))
+        cur = None
+        for c in a[4]:
+            lc = labels[c]
+            if lc is None:
+                return None
+            fl = lc[3]
+            if fl is None:
+                continue
+            if cur is None:
+                cur = fl
+            else:
+                if sk(cur[1]) != fl[0]:
+                    return "bad"
+                cur = (cur[0], fl[1])
+        return ([1, prods[a[1]][0]], a[2] if strict else 0, a[3] if strict else 0, cur)
+
+    changed = True
+    while changed:
+        changed = False
+        for k in range(n):
+            if labels[k] is not None:
+                continue
+            for a in nodes[k]:
+                l = alt_label(a)
+                if l is not None and l != "bad":
+                    labels[k] = l
+                    changed = True
+                    break
+    out = []
+    for l in labels:
+        if l is None:
+            out.append([])
+        else:
+            out.append([l[0], l[1], l[2], [] if l[3] is None else [l[3][0], l[3][1]]])
+    return out
